@@ -684,6 +684,43 @@ func (env *SpecEnv) call(e *Expr) *Value {
 		specFail("len of %s", args[0])
 	case "jhas", "jok", "jfield", "jstr", "jint", "jbool", "jdecoded", "jstrs", "jmapint":
 		return env.specJSON(name, args)
+	case "extcall":
+		// extcall("pkg.Func", args...): the result the pure extern yields for these arguments
+		if len(args) < 1 || args[0].Op != "str" {
+			specFail("extcall needs a function name")
+		}
+		fnName := args[0].Name
+		ec, ok := x.db.Externs[fnName]
+		fn := x.allFuncs[fnName]
+		if !ok || !ec.Pure || fn == nil {
+			specFail("extcall: %s is not a pure extern", fnName)
+		}
+		var avs []*Value
+		for i, a := range args[1:] {
+			v := env.eval(a)
+			if i < len(fn.Params) {
+				pt := fn.Params[i].Type()
+				if _, isIface := under(pt).(*types.Interface); isIface && v.K != KIface {
+					v = x.makeInterface(env.cur, v, v.T, pt)
+				}
+			}
+			avs = append(avs, v)
+		}
+		var resT types.Type = fn.Signature.Results()
+		if fn.Signature.Results().Len() == 1 {
+			resT = fn.Signature.Results().At(0).Type()
+		}
+		var ats []*Term
+		for _, a := range avs {
+			ats = append(ats, leafTerms(a)...)
+		}
+		i := 0
+		res := buildValue(resT, func(l Leaf) *Term {
+			t := x.ctx.App(fmt.Sprintf("f$%s$%d", sanitize(fnName), i), l.Sort, ats...)
+			i++
+			return t
+		})
+		return res
 	case "get":
 		// get(m, k): the value stored for k (unspecified when k is absent) — no zero-value fallback
 		m := env.eval(args[0])
@@ -802,6 +839,18 @@ func (env *SpecEnv) call(e *Expr) *Value {
 			return scalar(tStr, x.bytesToStr(env.cur, v))
 		}
 		return scalar(tStr, v.Term)
+	}
+	if fvv, isVar := env.vars[name]; isVar && fvv.K == KFunc && fvv.T != nil && x.pureFuncType(fvv.T) {
+		var avs []*Value
+		for _, a := range args {
+			avs = append(avs, env.eval(a))
+		}
+		sig := under(fvv.T).(*types.Signature)
+		var resT types.Type = sig.Results()
+		if sig.Results().Len() == 1 {
+			resT = sig.Results().At(0).Type()
+		}
+		return x.pureFuncCall(fvv, fvv.T, avs, resT)
 	}
 	if sf, ok := x.db.Funs[name]; ok {
 		if len(sf.Params) != len(args) {
@@ -946,10 +995,29 @@ func (env *SpecEnv) methodCall(fn *Expr, args []*Expr) *Value {
 		for i := 0; i < it.NumMethods(); i++ {
 			m := it.Method(i)
 			if m.Name() == fn.Name {
+				x.accessorState = env.cur
 				return x.ifaceAccessor(recv, m, avs)
 			}
 		}
 		specFail("no method %s on %s", fn.Name, recv.T)
+	}
+	// a field of a pure func type: apply it
+	{
+		bt := recv.T
+		if recv.K == KPtr {
+			bt = derefType(recv)
+		}
+		if o, _, _ := types.LookupFieldOrMethod(bt, true, env.pkgOf(bt), fn.Name); o != nil {
+			if fld, isVar := o.(*types.Var); isVar && x.pureFuncType(fld.Type()) {
+				fv := env.field(fn)
+				sig := under(fld.Type()).(*types.Signature)
+				var resT types.Type = sig.Results()
+				if sig.Results().Len() == 1 {
+					resT = sig.Results().At(0).Type()
+				}
+				return x.pureFuncCall(fv, fld.Type(), avs, resT)
+			}
+		}
 	}
 	// concrete method
 	t := recv.T
@@ -993,6 +1061,17 @@ func (env *SpecEnv) methodCall(fn *Expr, args []*Expr) *Value {
 func (x *Exec) ifaceAccessor(recv *Value, m *types.Func, args []*Value) *Value {
 	sig := m.Type().(*types.Signature)
 	it := recv.T
+	if def, ok := x.db.MethodDefs[shortType(it)+"."+m.Name()]; ok && x.accessorState != nil {
+		vars := map[string]*Value{"recv": recv}
+		for i, p := range def.Params {
+			if i < len(args) {
+				vars[p] = args[i]
+			}
+		}
+		x.trusted["interface method "+shortType(it)+"."+m.Name()+" is defined by its specification in terms of the other accessors"] = true
+		env := &SpecEnv{x: x, vars: vars, cur: x.accessorState, old: x.accessorState, pkg: m.Pkg()}
+		return env.eval(def.Body)
+	}
 	base := "m$" + sanitize(shortType(it)) + "." + m.Name()
 	ts := []*Term{recv.IRef}
 	for _, a := range args {
